@@ -57,10 +57,12 @@ def label_map_hook(F):
         if n == "<core::option::Option>::map" and len(t["xs"]) >= 2 and "t" in t["xs"][1]:
             cty = w.body.ty(t["xs"][1]["t"])
             a0 = args[0]
-            if cty["k"] == "closure" and isinstance(a0, tuple) and a0[0] == "var" and a0[2] == "Some":
+            if cty["k"] in ("closure", "fndef") and isinstance(a0, tuple) and a0[0] == "var" and a0[2] == "Some":
+                # a closure literal or a function item (`span.map(note_label)`): evaluated on the tagged payload
                 clo = F.fn_opt(cty["d"])
                 src = w.norm(e, t["xs"][0])
                 pay = e.get(src + "@Some.0")
+                argl = "2" if cty["k"] == "closure" else "1"
                 if clo is not None and pay is not None:
                     found = []
 
@@ -71,7 +73,7 @@ def label_map_hook(F):
                                 found.append(v[1])
                         return None
                     w2 = kwalk.Walker(F, clo.body, on_stmt=inner_stmt)
-                    w2.run(0, {"2": pay})
+                    w2.run(0, {argl: pay})
                     for tg in found:
                         e["#lbl:" + tg] = ("y",)
                     return ("var", OPTION, "Some")
